@@ -333,10 +333,21 @@ def populate(c: Ctx, n_objects=None, types=None, origin_pos=None, n_origins=None
             c.add(op)
         else:
             make_object(c, st[1], p=r.choice([0.2, 0.5, 0.9]))
+    # the defining origin gets an explicit reference R; objects created BEFORE it may name R explicitly (others are
+    # back-filled with it), so same-named objects reach the same origin by two different routes
+    if origin_ops and maybe(r, 0.35):
+        R = r.choice([3, 5, 127, 128, 200])
+        first = origin_ops[0]
+        c.sp['ops'][first]['attrs']['origin_reference'] = R
+        for i, op in enumerate(c.sp['ops']):
+            if op.get('lf', 0) == c.lf and op['op'] in schema.TYPES and op['op'] != 'origin' and 'origin_reference' not in op:
+                if (i < first and maybe(r, 0.4)) or (i > first and maybe(r, 0.15)):
+                    op['origin_reference'] = R
     # explicit origin references for some objects created after >= 2 origins exist
     if len(origin_ops) >= 2:
         for i, op in enumerate(c.sp['ops']):
-            if op.get('lf', 0) == c.lf and op['op'] in schema.TYPES and op['op'] != 'origin' and i > origin_ops[1] and maybe(r, 0.25):
+            if op.get('lf', 0) == c.lf and op['op'] in schema.TYPES and op['op'] != 'origin' and i > origin_ops[1] and maybe(r, 0.25) \
+                    and 'origin_reference' not in op:
                 op['origin_reference'] = {'$origin_of': r.choice([o for o in origin_ops if o < i])}
     if named_sets:
         for op in c.sp['ops']:
